@@ -7,6 +7,7 @@ import (
 	"os"
 	"strconv"
 	"testing"
+	"time"
 )
 
 // TestVerif is the single entry point of the rt harness.
@@ -19,6 +20,13 @@ func TestVerif(t *testing.T) {
 	if mode == "" {
 		t.Skip("VERIF_MODE not set")
 	}
+	// HTTP dates are GMT whatever the process's zone is: run with a local zone far from UTC so that a
+	// time formatted or compared in local time shows (VERIF_TZ_OFFSET hours, default +9)
+	off := 9
+	if v, err := strconv.Atoi(os.Getenv("VERIF_TZ_OFFSET")); err == nil {
+		off = v
+	}
+	time.Local = time.FixedZone("verif", off*3600)
 	out, err := os.Create(os.Getenv("VERIF_OUT"))
 	if err != nil {
 		t.Fatal(err)
